@@ -588,6 +588,44 @@ func c09Bulk(w *mon.W, part, parts int) {
 		}
 	}
 
+	// (c') the complete single-mutation matrix of C10 (every field x dropped / renamed / null /
+	// every other kind / out-of-range and malformed values), correctly signed, through every
+	// decoder - here only watched for panics and crashes
+	for ti, typ := range []string{"dlg", "inv"} {
+		iss := gen.Ed(7 + ti)
+		spec := gen.RandomSpec(r, typ, gen.SpecOpts{Issuer: iss, Full: true, NoBig: true})
+		tk, err := spec.Build()
+		if err != nil {
+			continue
+		}
+		sealed, _, err := tk.ToSealed(iss.Priv)
+		if err != nil {
+			continue
+		}
+		env, _ := ref.DecodeDagCbor(sealed)
+		info, err := ref.ReadEnvelope(env)
+		if err != nil {
+			continue
+		}
+		for mi, m := range c10Mutations(typ, info.Payload) {
+			if (mi+ti)%parts != part {
+				continue
+			}
+			cb, js := signedWith(iss, info.Tag, m.apply(info.Payload))
+			w.Cover("family/c-signed-malformed")
+			if cb != nil {
+				w.Distinct(cb)
+				c.tokenEntries("signed-"+m.field+"-"+m.kind, cb, "dagcbor")
+				if ctn, err := ref.EncodeDagCbor(ref.Map(ref.E("ctn-v1", ref.List(ref.Bytes(cb))))); err == nil {
+					c.containerEntries("container-of-signed-"+m.field+"-"+m.kind, ctn)
+				}
+			}
+			if js != nil {
+				c.tokenEntries("signed-"+m.field+"-"+m.kind, js, "dagjson")
+			}
+		}
+	}
+
 	// ---- (d) principals carrying invalid key material (PubKey runs before the signature check)
 	c.family = "d-bad-key-material"
 	for i, p := range gen.Pool() {
